@@ -74,7 +74,7 @@ func genL3(t *rapid.T) L3Case {
 	}
 	c.Cycles = rapid.SampledFrom([]int{1, 1, 2}).Draw(t, "cycles")
 	c.Codecs = genCodecs(t, 0, "rtmp")
-	c.Items, _ = genItems(t, c.Codecs, 0, 0, 1000)
+	c.Items, _ = genItems(t, c.Codecs, 0, 0, 1000, false)
 	c.End = rapid.SampledFrom([]string{"close", "close", "silent"}).Draw(t, "end")
 	opts := []string{"before", "after"}
 	if c.End == "silent" {
@@ -636,6 +636,6 @@ func runL3(c L3Case) *pbt.Violation {
 func TestLifecycleL3(t *testing.T) {
 	pbt.Run(t, pbt.Spec[L3Case]{
 		ID: "C16", Name: "lifecycle-l3", Gen: genL3, Run: runL3, Classify: classifyL3,
-		Quick: 2, Thorough: 14, Isolate: true,
+		Quick: 3, Thorough: 14, Isolate: true,
 	})
 }
